@@ -578,6 +578,24 @@ func (g *pgen) corpusC07keys(start int) []*ConvSpec {
 		}
 		out = append(out, c)
 	}
+	// a fallible element conversion of an array that is filled into a struct field of slice type (known finding F-C02-1: the
+	// slice is never made): the element conversion runs, and may fail, before the store panics
+	for i, wrap := range []string{"wrapErrors", ""} {
+		i64 := tBasic(bkInt64)
+		f := &FuncDecl{Idx: len(g.p.Funcs), Pkg: 1, Tgt: tPtr(i64), Err: true, Params: []FnParam{{Name: "src", T: tPtr(i64), Role: 0}}}
+		f.Name = fmt.Sprintf("Ext%d", f.Idx)
+		g.p.Funcs = append(g.p.Funcs, f)
+		s := g.newNamed(1, &Ty{K: "struct", Pkg: 1, Fields: []Field{{"Next", tArr(2, tPtr(i64))}}}, "S")
+		t := g.newNamed(1, &Ty{K: "struct", Pkg: 1, Fields: []Field{{"Next", tSlice(tPtr(i64))}}}, "T")
+		c := &ConvSpec{Name: fmt.Sprintf("C%d", start+len(out)+i*0), Custom: true, FuncNames: map[string]int{}}
+		if wrap != "" {
+			c.Lines = append(c.Lines, wrap)
+		}
+		c.Lines = append(c.Lines, "extend "+f.Name)
+		c.Extend = []ExtSpec{{Text: f.Name, Exact: f.Idx}}
+		c.Methods = []*MethodSpec{{Name: "M0", Src: tNamed(s), Tgt: tPtr(tNamed(t)), Err: true, Fields: map[string]*fieldSet{}}}
+		out = append(out, c)
+	}
 	return out
 }
 
